@@ -80,9 +80,78 @@ var verifiers = []string{
 }
 
 func (g *gen) op(line string) string {
+	if g.bias == "C18" {
+		return g.faultyOp(line)
+	}
 	obs := g.e.Do(line)
 	g.steps++
 	return obs
+}
+
+var faultKinds = []string{"generic", "generic", "serialization", "not_found"}
+
+func isEndpointOp(line string) bool {
+	switch line[:strings.IndexByte(line+"\t", '\t')] {
+	case "redeem", "refresh", "devicePoll", "cc", "password", "authorize", "revoke", "parPush", "authorizePar", "deviceAuthorize", "introspect", "introspectHTTP":
+		return true
+	}
+	return false
+}
+
+// faultyOp (C18, D2): an endpoint operation is preceded by fault plans.  Three shapes:
+//   - sweep: the same request is sent again and again with a single fault at storage-call index 0, 1, 2, …
+//     until it goes through (with a transactional store every refused attempt must leave the records
+//     unchanged, so this enumerates every call site of the flow on one state; without transactions it is
+//     a sequence of retries after partial effects);
+//   - one or two random faults, followed by a fault-free retry of the same request;
+//   - no fault.
+func (g *gen) faultyOp(line string) string {
+	do := func(l string) string { o := g.e.Do(l); g.steps++; return o }
+	if !isEndpointOp(line) {
+		return do(line)
+	}
+	r := g.r
+	switch x := r.Intn(10); {
+	case x < 3:
+		kind := faultKinds[r.Intn(len(faultKinds))]
+		pair := r.Intn(3) == 0
+		for k := 0; k < 14; k++ {
+			plan := fmt.Sprintf(",%d:%s", k, kind)
+			if pair {
+				// a second fault shortly behind the first: the rollback / commit / clean-up that follows it
+				plan += fmt.Sprintf(",%d:%s", k+1+r.Intn(2), faultKinds[r.Intn(len(faultKinds))])
+			}
+			do("fault\t" + plan)
+			obs := do(line)
+			if !strings.HasPrefix(obs, "err ") || !strings.Contains(obs, "="+faultClass(kind)) {
+				return obs // the fault index lies beyond the last storage call of this request
+			}
+		}
+		return do(line)
+	case x < 7:
+		plan := fmt.Sprintf(",%d:%s", r.Intn(12), faultKinds[r.Intn(len(faultKinds))])
+		if r.Intn(3) == 0 {
+			plan += fmt.Sprintf(",%d:%s", r.Intn(14), faultKinds[r.Intn(len(faultKinds))])
+		}
+		do("fault\t" + plan)
+		obs := do(line)
+		if strings.HasPrefix(obs, "err ") && r.Intn(4) != 0 {
+			return do(line) // retry
+		}
+		return obs
+	}
+	return do(line)
+}
+
+// faultClass is how an injected fault of this kind shows in the storage-call log
+func faultClass(kind string) string {
+	switch kind {
+	case "not_found":
+		return "notfound"
+	case "serialization":
+		return "err:error/409"
+	}
+	return "err:error/500"
 }
 
 func pickN(r *Rand, xs []string, p int) []string {
@@ -109,7 +178,8 @@ func (g *gen) setup() {
 	parLife := []int64{300 * sec, 45 * sec}[r.Intn(2)]
 	g.op(fmt.Sprintf("cfg\trefreshScopes=%s\tscope=%s\taud=%s\tcodeLife=%d\tatLife=%d\trtLife=%d\tpkce=%s\tpkcePublic=%s\tplain=%s\tnoRtIntrospect=%s\tdeviceLife=%d\tparLife=%d\tenforcePAR=%s\tdevMark=%s",
 		encListS(refreshScopes), scopeStrat, audStrat, codeLife, atLife, rtLife, g.cfg["pkce"], g.cfg["pkcePublic"], g.cfg["plain"], b01(r.Intn(5) == 0),
-		deviceLife, parLife, b01(r.Intn(12) == 0 && g.bias != "C16"), b01(r.Intn(2) == 0 || (g.bias == "C16" && r.Intn(3) != 0))))
+		deviceLife, parLife, b01(r.Intn(12) == 0 && g.bias != "C16"), b01(r.Intn(2) == 0 || (g.bias == "C16" && r.Intn(3) != 0)))+
+		"\ttx="+b01(r.Intn(4) == 0 || (g.bias == "C18" && r.Intn(3) != 0)))
 	allScopes := []string{"offline", "openid", "a", "b.c", "rt", "offline_access"}
 	if scopeStrat == "wildcard" {
 		allScopes = append(allScopes, "b.*")
@@ -401,7 +471,50 @@ func (g *gen) introspect(tok string) {
 	case 2:
 		scopes = []string{"admin"}
 	}
+	if r.Intn(3) == 0 || (g.bias == "C09" && r.Bool()) {
+		// through the HTTP endpoint: who is asking?
+		ckind, carg, ccred := "none", "", "0"
+		switch r.Intn(9) {
+		case 0, 1:
+			ckind, carg, ccred = "basic", g.clients[r.Intn(len(g.clients))].id, "1"
+		case 8:
+			ckind, carg = "bearer", g.recentToken()
+		case 2:
+			ckind, carg, ccred = "basic", g.clients[r.Intn(len(g.clients))].id, "0"
+		case 3:
+			ckind, carg = "basic", "ghost"
+		case 4:
+			ckind, carg = "bearer", g.anyToken() // any access token, refresh token or code ever seen
+		case 5:
+			ckind, carg = "bearer", g.recentToken()
+		case 6:
+			ckind, carg = "bearer", tok // the inspected token itself
+		case 7:
+			base := func() string { return strings.SplitN(g.recentToken(), "~", 2)[0] }
+			ckind, carg = "bearer", []string{"garbage", "foreign", base() + "~r", base() + "~s"}[r.Intn(4)]
+		}
+		g.op(fmt.Sprintf("introspectHTTP\t%s\t%s\t%s\t%s\t%s\t%s", ckind, carg, ccred, tok, hint, encListS(scopes)))
+		return
+	}
 	g.op(fmt.Sprintf("introspect\t%s\t%s\t%s", tok, hint, encListS(scopes)))
+}
+
+// recentToken: the newest access token (mostly) or refresh token of some grant
+func (g *gen) recentToken() string {
+	r := g.r
+	for tries := 0; tries < 8 && len(g.grants) > 0; tries++ {
+		gr := g.grants[r.Intn(len(g.grants))]
+		if r.Intn(4) == 0 && len(gr.rts) > 0 {
+			return gr.rts[len(gr.rts)-1]
+		}
+		if len(gr.ats) > 0 {
+			return gr.ats[len(gr.ats)-1]
+		}
+		if gr.hybridAT != "" {
+			return gr.hybridAT
+		}
+	}
+	return g.anyToken()
 }
 
 func (g *gen) sweep() {
@@ -410,6 +523,21 @@ func (g *gen) sweep() {
 			continue
 		}
 		g.op(fmt.Sprintf("introspect\t%s\t\t", t))
+	}
+	if g.bias == "C09" {
+		// every kind of credential as the caller's bearer token at the HTTP endpoint
+		for _, gr := range g.grants {
+			target := g.recentToken()
+			if n := len(gr.rts); n > 0 {
+				g.op(fmt.Sprintf("introspectHTTP\tbearer\t%s\t0\t%s\t\t", gr.rts[n-1], target))
+			}
+			if n := len(gr.ats); n > 0 {
+				g.op(fmt.Sprintf("introspectHTTP\tbearer\t%s\t0\t%s\t\t", gr.ats[n-1], target))
+			}
+			if gr.code != "" && g.r.Intn(3) == 0 {
+				g.op(fmt.Sprintf("introspectHTTP\tbearer\t%s\t0\t%s\t\t", gr.code, target))
+			}
+		}
 	}
 }
 
